@@ -93,6 +93,10 @@ func buildProperty(ww *conversionVisitor, node *sourcewalk.PropertyNode) (*descr
 		// rules of the value type belong into map.values, next to the rules
 		// of the map.
 		valueRules := proto.GetExtension(itemDesc.Options, validate.E_Field).(*validate.FieldConstraints)
+		if valueList := proto.GetExtension(itemDesc.Options, list_j5pb.E_Field).(*list_j5pb.FieldConstraint); valueList != nil {
+			proto.SetExtension(fieldDesc.Options, list_j5pb.E_Field, valueList)
+			ww.file.ensureImport(j5ListAnnotationsImport)
+		}
 		itemDesc.Options = nil
 		if valueRules != nil || st.Map.Rules != nil {
 			mapRules := &validate.MapRules{
